@@ -8,16 +8,20 @@ from .ir import walk, strip, is_noop, AnalysisBroken, fn_paths, Sym
 
 
 class Atom(tuple):
-    """(kind, detail, fid, line)"""
+    """(kind, detail, fid, line, via) — via: (class, method) of the outermost call the value came through, or None"""
     __slots__ = ()
 
-    def __new__(cls, kind, detail, fid=None, line=None):
-        return tuple.__new__(cls, (kind, detail, fid, line))
+    def __new__(cls, kind, detail, fid=None, line=None, via=None):
+        return tuple.__new__(cls, (kind, detail, fid, line, via))
 
     kind = property(lambda s: s[0])
     detail = property(lambda s: s[1])
     fid = property(lambda s: s[2])
     line = property(lambda s: s[3])
+    via = property(lambda s: s[4])
+
+    def through(self, via):
+        return Atom(self[0], self[1], self[2], self[3], via)   # the outermost call wins
 
 
 def local_defs(body):
@@ -108,7 +112,7 @@ class Origins:
         ln = e.get("l", line)
         if k in ("cast", "defarg", "definit"):
             if k == "defarg":
-                return {Atom("deflit", a.detail, a.fid, a.line) if a.kind == "lit" else a
+                return {Atom("deflit", a.detail, a.fid, a.line, a.via) if a.kind == "lit" else a
                         for a in self.origin(fid, e.get("e"), field, stack, ln, seen_locals)}
             return self.origin(fid, e.get("e"), field, stack, ln, seen_locals)
         if "cv" in e and field is None and k != "asg":
@@ -130,9 +134,9 @@ class Origins:
                 other = f_ if neq else t
                 if self._expr_eq(gexpr, bexpr):
                     # the value is used only on the branch where it differs from the sentinel
-                    branch = {Atom("guarded", "%s != %s" % (a.detail, sentinel), a.fid, a.line)
+                    branch = {Atom("guarded", "%s != %s" % (a.detail, sentinel), a.fid, a.line, a.via)
                               if a.kind in ("read", "param", "local") else
-                              (a if not (a.kind == "lit" and a.detail == sentinel) else Atom("guarded", "lit", a.fid, a.line))
+                              (a if not (a.kind == "lit" and a.detail == sentinel) else Atom("guarded", "lit", a.fid, a.line, a.via))
                               for a in branch}
                 return branch | other
             return t | f_
@@ -209,15 +213,16 @@ class Origins:
                 hit = self.user_atoms[name](F, e, cf)
                 if hit is not None:
                     return {Atom(hit[0], hit[1], fid, ln)}
+            via = (cf.get("cls", ""), name)
             if F.body(e["f"]) is None:
-                return {Atom("extern", F.fdisp(e["f"]), fid, ln)}
+                return {Atom("extern", F.fdisp(e["f"]), fid, ln, via)}
             # accessor chains that inline to a place are reads of that place (in the caller's terms)
             S = Sym(F, fid)
             if S.accessor_body(e["f"]) is not None:
                 s = S.sym(e)
                 if "(" not in s and not s.startswith("#"):
                     return {Atom("read", s + ("." + field if field else ""), fid, ln)}
-            return self.ret_origins(e["f"], field, stack)
+            return {a.through(via) for a in self.ret_origins(e["f"], field, stack)}
         if k == "bin":
             return {Atom("expr", e["op"], fid, ln)}
         if k == "un":
